@@ -264,8 +264,11 @@ func (db *DB) writeLocked(batch, ourBatch *Batch, merge, sync bool) error {
 	}
 
 	verifEvent(VerifEvApplied, verifWID(batch, nil), 0)
+	verifEvent(507, seq, db.seq)
+
 	// Incr seq number.
 	db.addSeq(uint64(batchesLen(batches)))
+	verifEvent(508, db.seq, 0)
 	verifEvent(VerifEvPublish, verifWID(batch, nil), db.seq)
 
 	// Rotate memdb if it's reach the threshold.
